@@ -128,6 +128,73 @@ fn generated_case(ctx: &Ctx, ch: &mut Ch) -> Outcome {
     check_text(ctx, &text, crate::checks::c02::step_budget(ctx.tier))
 }
 
+/// Conversion put to use, exhaustively for a small family: a function that returns its argument
+/// unchanged is annotated `(b : bool) -> (x : int) -> T1 -> T2` for every pair of type expressions
+/// over `b`, `x` and three type-level functions; it is applied to constants and to an inhabitant
+/// of `T1` at those constants. Whenever gram accepts the annotation, the value must inhabit `T2` at
+/// the constants.
+fn coercions_part(ctx: &Ctx) {
+    #[derive(Clone, Copy, PartialEq)]
+    enum B {
+        Int,
+        Bool,
+        Fun,
+    }
+    let base = [("int", B::Int), ("bool", B::Bool), ("int -> int", B::Fun)];
+    type Sem = Box<dyn Fn(bool, i64) -> B>;
+    let mut tys: Vec<(String, Sem)> = vec![];
+    for (n, v) in base {
+        tys.push((n.to_owned(), Box::new(move |_, _| v)));
+    }
+    for (na, va) in base {
+        for (nb, vb) in base {
+            tys.push((format!("if b then {na} else {nb}"), Box::new(move |b, _| if b { va } else { vb })));
+            tys.push((format!("if x < 1 then {na} else {nb}"), Box::new(move |_, x| if x < 1 { va } else { vb })));
+        }
+    }
+    tys.push(("t b".to_owned(), Box::new(|b, _| if b { B::Int } else { B::Bool })));
+    tys.push(("u b".to_owned(), Box::new(|_, _| B::Int)));
+    tys.push(("w x".to_owned(), Box::new(|_, x| if x == 0 { B::Bool } else { B::Int })));
+    tys.push(("w (x + 0)".to_owned(), Box::new(|_, x| if x == 0 { B::Bool } else { B::Int })));
+    tys.push(("t (x < 1)".to_owned(), Box::new(|_, x| if x < 1 { B::Int } else { B::Bool })));
+    tys.push(("if b then (if b then int else bool) else bool".to_owned(), Box::new(|b, _| if b { B::Int } else { B::Bool })));
+    tys.push(("if b then int else (if b then int else bool)".to_owned(), Box::new(|b, _| if b { B::Int } else { B::Bool })));
+    tys.push(("((k : type) => k) (if b then int else bool)".to_owned(), Box::new(|b, _| if b { B::Int } else { B::Bool })));
+    let mut idx = 0u64;
+    let mut total = 0u64;
+    for (t1, sem1) in &tys {
+        for (t2, _) in &tys {
+            for cb in [true, false] {
+                for cx in [0i64, 1] {
+                    idx += 1;
+                    if idx % u64::from(ctx.nshards) != u64::from(ctx.shard) {
+                        continue;
+                    }
+                    let arg = match sem1(cb, cx) {
+                        B::Int => "7",
+                        B::Bool => "true",
+                        B::Fun => "((q : int) => q + 1)",
+                    };
+                    let text = format!(
+                        "t : (bool -> type) = (c : bool) => if c then int else bool; u : (bool -> type) = (c : bool) => if c then int else int; w : (int -> type) = (n : int) => if n == 0 then bool else int; co : ((b : bool) -> (x : int) -> ({t1}) -> {t2}) = (b : bool) => (x : int) => (v : {t1}) => v; co {cb} {cx} {arg}"
+                    );
+                    total += 1;
+                    let r = check_text(ctx, &text, 20_000);
+                    if r.is_err() {
+                        ctx.settle(r);
+                        if ctx.peek_violations() >= 6 {
+                            return;
+                        }
+                    }
+                }
+            }
+        }
+    }
+    ctx.evaluated(total);
+    ctx.exhaustive("coercions");
+    ctx.note(&format!("coercions: an identity function annotated `(b : bool) -> (x : int) -> T1 -> T2` for every pair of {} type expressions (base types, conditionals on b and on x, applications of three type-level functions), applied at b in {{true, false}}, x in {{0, 1}} to an inhabitant of T1", tys.len()));
+}
+
 const REGRESSIONS: [&str; 5] = [
     "t = int; x : t = 3; x",
     "tyf : (bool -> type) = (b : bool) => if b then int else bool; x : tyf false = true; x",
@@ -141,7 +208,7 @@ pub fn def(tier: Tier) -> CheckDef {
     CheckDef {
         id: "C04",
         level: "exploration",
-        rule: "type-directed generated programs (plain, annotation-erased, and perturbed by one type-breaking mutation or variable swap - the accepted ones count) over result types int, bool, type, non-dependent and dependent function types, types produced by type-level functions and conditionals, and types mentioning definition groups; each accepted program is run with gram's `step` loop and the value v and the reported type T are compared: by shape (int => literal, bool => true/false, function type => function with the same implicit flag, type => a type former) and by the independent checker (R-core infers a type for v, which must be convertible with T); non-trivial = T is not a bare base type, or evaluation took >= 5 steps; distinct by text",
+        rule: "type-directed generated programs (plain, annotation-erased, and perturbed by one type-breaking mutation or variable swap - the accepted ones count) over result types int, bool, type, non-dependent and dependent function types, types produced by type-level functions and conditionals, and types mentioning definition groups; each accepted program is run with gram's `step` loop and the value v and the reported type T are compared: by shape (int => literal, bool => true/false, function type => function with the same implicit flag, type => a type former) and by the independent checker (R-core infers a type for v, which must be convertible with T); plus (exhaustive) an identity function annotated `(b : bool) -> (x : int) -> T1 -> T2` for every pair of small type expressions T1, T2 and applied at constants: conversion between computed types put to use; non-trivial = T is not a bare base type, or evaluation took >= 5 steps; distinct by text",
         assumptions: vec!["values or types that still contain unresolved holes are outside the explicit checker's domain (counted, not judged)"],
         idle_limit_s: 180,
         needs_cli: false,
@@ -160,6 +227,12 @@ pub fn def(tier: Tier) -> CheckDef {
                         ctx.settle(r);
                     }
                 }),
+                replay: None,
+            },
+            Part {
+                name: "coercions",
+                rounds: 1,
+                run: Box::new(|ctx, _| coercions_part(ctx)),
                 replay: None,
             },
             Part {
